@@ -229,6 +229,22 @@ def read_fits_spec(filename, ext=1, wave_col='WAVELENGTH', flux_col='FLUX',
     return header, wavelengths, fluxes
 
 
+def _unit_to_fits_str(unit):
+    """Unit string for a ``TUNITn`` keyword: upper case by convention,
+    unless upper-casing changes what the string is read back as
+    (``astropy.units`` names are case-sensitive, e.g., Hz, mJy, Mm).
+    """
+    unit_str = unit.to_string()
+
+    try:
+        if units.validate_unit(unit_str.upper()) == unit:
+            unit_str = unit_str.upper()
+    except ValueError:
+        pass
+
+    return unit_str
+
+
 def write_fits_spec(filename, wavelengths, fluxes, pri_header={},
                     ext_header={}, overwrite=False, trim_zero=True,
                     pad_zero_ends=True, precision=None, epsilon=0.00032,
@@ -302,8 +318,8 @@ def write_fits_spec(filename, wavelengths, fluxes, pri_header={},
     else:
         flux_value = fluxes
 
-    wave_unit = units.validate_unit(wave_unit).to_string().upper()
-    flux_unit = units.validate_unit(flux_unit).to_string().upper()
+    wave_unit = _unit_to_fits_str(units.validate_unit(wave_unit))
+    flux_unit = _unit_to_fits_str(units.validate_unit(flux_unit))
 
     if wave_value.shape != flux_value.shape:
         raise exceptions.SynphotError(
